@@ -246,6 +246,8 @@ class Frame:
         f.bb = self.bb
         if getattr(self, "pure_stop", False):
             f.pure_stop = True
+        if getattr(self, "ret_wrap", None) is not None:
+            f.ret_wrap = self.ret_wrap
         return f
 
 
@@ -684,6 +686,8 @@ class Executor:
                     continue
                 if t.kind == "return":
                     rv = fr.locals.get(0, UNIT)
+                    if getattr(fr, "ret_wrap", None) is not None:
+                        rv = fr.ret_wrap(rv)
                     if len(stk) == 1 or getattr(fr, "pure_stop", False):
                         ends.append(PathEnd("done", z3.And(cnd) if cnd else z3.BoolVal(True), stk, info=rv))
                         break
